@@ -237,7 +237,7 @@ const smtPrelude = `(set-option :produce-models true)
 (declare-datatypes ((Slice 0)) (((mk-slice (s.arr Ref) (s.off Int) (s.len Int) (s.cap Int)))))
 (declare-datatypes ((Iface 0)) (((mk-iface (i.tag Int) (i.val Ref)))))
 (define-fun rparent ((r Ref)) Ref (ite ((_ is elem) r) (e.arr r) (ite ((_ is sub) r) (s.base r) r)))
-(define-fun at ((r Ref)) Int (let ((a r)) (ite ((_ is obj) a) (id a) (ite ((_ is boxed) a) (- 1) (let ((b (rparent a))) (ite ((_ is obj) b) (id b) (let ((c (rparent b))) (ite ((_ is obj) c) (id c) (let ((d (rparent c))) (ite ((_ is obj) d) (id d) (let ((e (rparent d))) (ite ((_ is obj) e) (id e) (- 1)))))))))))))
+(define-fun-rec at ((r Ref)) Int (ite ((_ is obj) r) (id r) (ite ((_ is boxed) r) (- 1) (ite ((_ is elem) r) (at (e.arr r)) (at (s.base r))))))
 (declare-sort Str 0)
 (declare-sort F64 0)
 (declare-fun slen (Str) Int)
